@@ -126,7 +126,7 @@ class HumanMessageSerializer:
                     elif re.match(r"\A\w+-\w+-.*", var_val):
                         var_val = datatypes.UUID(var_val)
                     else:
-                        var_val = ast.literal_eval(var_val)
+                        var_val = cls._read_literal(var_val)
 
                 # Normally gross, but necessary for expressiveness in built messages
                 # unless a metalanguage is added.
@@ -239,6 +239,13 @@ class HumanMessageSerializer:
                     var_data = "[[CIRCUIT_CODE]]"
         string += f"  {field_prefix}{var_name} = {var_data}"
         return string
+
+    @staticmethod
+    def _read_literal(val_str: str):
+        # repr() of a non-finite float is a bare name, which isn't a literal as far as `ast` is concerned
+        if re.fullmatch(r"-?(inf|nan)", val_str):
+            return float(val_str)
+        return ast.literal_eval(val_str)
 
     @staticmethod
     def _packs_back(serializer, block, pretty_data, var_val) -> bool:
